@@ -65,6 +65,25 @@ pub fn list_program(interp: &mut Interpreter) -> Result<Vec<String>, String> {
         .collect())
 }
 
+/// M_C13 on a real tokenization: ranges in the line, on character boundaries, ordered, disjoint,
+/// non-blank at both ends (REM and DATA run to the end of their text), each re-tokenizing to its token.
+pub fn range_monitor(line: &str, r: &RealLex) -> Option<&'static str> {
+    let b = line.as_bytes();
+    let blank = |c: u8| c == b' ' || c == b'\t' || c == 12 || c == b'\r';
+    let mut prev_end = 0usize;
+    for (t, rg) in r.toks.iter().zip(&r.ranges) {
+        if rg.start >= rg.end || rg.end > b.len() { return Some("out_of_line"); }
+        if !line.is_char_boundary(rg.start) || !line.is_char_boundary(rg.end) { return Some("off_character_boundary"); }
+        if rg.start < prev_end { return Some("overlapping"); }
+        if blank(b[rg.start]) { return Some("begins_on_blank"); }
+        if !(t.kind == "remark" || t.kind == "data") && blank(b[rg.end - 1]) { return Some("ends_on_blank"); }
+        let again = real_lex(&line[rg.clone()], 0);
+        if again.err.is_some() || again.toks.len() != 1 || !tok_same(&again.toks[0], t) { return Some("range_does_not_retokenize_to_its_token"); }
+        prev_end = rg.end;
+    }
+    None
+}
+
 fn lex_obs_json(r: &RealLex) -> J {
     let (k, a, b) = err_json(&r.err);
     json!({"toks": toks(&r.toks), "ranges": ranges_json(&r.ranges), "err": k, "ea": a, "eb": b})
@@ -104,6 +123,9 @@ pub fn replay_rows(tlc_out: &str, rep: &mut Report) {
                 json!({"line": row["line"], "text": line, "expected": {"toks": row["toks"], "ranges": row["ranges"], "err": row["err"], "ea": row["ea"], "eb": row["eb"]}, "observed": obs}),
             );
         }
+        if let Some(problem) = range_monitor(&line, &real) {
+            rep.violation("C13", "range_malformed", json!({"problem": problem}), json!({"line": row["line"], "text": line, "observed": obs}));
+        }
         if toks_ok && real.toks.len() > 0 {
             rep.count("rows_nontrivial");
         }
@@ -137,6 +159,15 @@ pub fn replay_rows(tlc_out: &str, rep: &mut Report) {
                 continue;
             };
             let other = real_lex(&text, 0);
+            // M_C13 on the perturbed spelling too: its ranges must be exact as well
+            if let Some(problem) = range_monitor(&text, &other) {
+                rep.violation(
+                    "C13",
+                    "range_malformed_on_perturbed_line",
+                    json!({"problem": problem, "perturbation": name}),
+                    json!({"line": row["line"], "text": line, "perturbed": bytes_of(&v), "perturbed_text": text, "observed": lex_obs_json(&other)}),
+                );
+            }
             if !same_meaning(&real, &other) {
                 let tk = real
                     .toks
